@@ -163,7 +163,7 @@ def run(case, st):
         common.plastex_reset()
     try:
         names = list(out.files.values())
-        pages = R.read_output(out.outdir)
+        pages = R.read_output(out.outdir, also=names)
         parsed = {n: R.Page(t) for n, t in pages.items()}
         base = case['base_url'].rstrip('/')
         bad = []
